@@ -185,7 +185,8 @@ def run_property(pid, tier, seed, meta, known, scratch, a):
     for m in missed:
         print('UNDECIDED seeded mutant not caught: unit=%s %s (%s %s)' % (m['unit'], m['mutant'], m['status'], m['reason']))
     wall = time.time() - t0
-    write_evidence(pid, tier, seed, meta, results, known_hits, violations, wall, [], mutant_results)
+    if not (a.mutants or a.unit):     # partial runs (debugging) never overwrite the evidence file
+        write_evidence(pid, tier, seed, meta, results, known_hits, violations, wall, [], mutant_results)
     nob = sum(r.counts()[0] for r in results)
     nok = sum(r.counts()[1] for r in results)
     print('%s tier=%s units=%d ok=%d fail=%d undecided=%d obligations=%d discharged=%d known=%d wall=%.1fs' % (
